@@ -34,6 +34,8 @@ type c09Input struct {
 	roots [][]byte
 	keys  [][]byte
 	isIdx bool // an index file rather than a CAR
+	hasIndex bool // a CARv2 carrying an index
+	implOnly bool // too costly for the extracted model: judged at implementation level only
 	maxIsIdentity bool
 }
 
@@ -157,8 +159,7 @@ func c09Wrap(payload []byte, dpad, ipad uint64, codec uint64) (file []byte, idxO
 // a walker that seeks by (length - cidLength) re-reads the rest of the file once per 7 bytes:
 // cumulative allocation and time are quadratic in the input (known finding
 // "section-shorter-than-its-cid"; theories/Alloc.v resume_sections_ok is the guard).
-func c09AmplifyPayload(b *c09Base, total int) []byte {
-	hdr := b.payload[:b.lay.hdrEnd]
+func c09AmplifyPayload(hdr []byte, total int) []byte {
 	out := make([]byte, total)
 	copy(out, hdr)
 	const tail = 1 << 14 // keeps every digest length a minimal 3-byte varint
@@ -335,6 +336,10 @@ func c09ExpectFor(j *c09Job, in *c09Input, row c09Row) c09Expect {
 		// ReadOrGenerateIndex on a CARv2 that carries an index decodes that index and never parses the payload
 		return c09Expect{kind: "none"}
 	}
+	if e == c09ERobs && in.v2 && in.hasIndex && row.hdr == "over" {
+		// NewReadOnly decodes the embedded index and never parses the payload header; Get goes by offset
+		return c09Expect{kind: "none"}
+	}
 	if e == c09EBrSkip && !in.v2 && j.Flavour == 2 {
 		// Reader.DataReader() of a CARv1 cannot report its size: SkipNext answers with an error (it used to
 		// panic, notes/fixes/C09-offset-reader-seekend.patch) before it gets to the section in question
@@ -407,7 +412,7 @@ var c09FileMaxSeek uint64
 
 func c09Plan(r *RNG, plan *[]c09Planned, in *c09Input, row c09Row, entries []int) {
 	for _, e := range entries {
-		j := c09Job{Entry: e, Zeof: row.zeof, MaxH: row.maxH, MaxS: row.maxS, In: in.data, MaxSeek: memMaxSeek}
+		j := c09Job{Entry: e, Zeof: row.zeof, MaxH: row.maxH, MaxS: row.maxS, In: in.data, MaxSeek: memMaxSeek, ImplOnly: in.implOnly}
 		if e == c09EReplaceRoots || e == c09EExtract {
 			j.MaxSeek = c09FileMaxSeek
 		}
@@ -475,6 +480,7 @@ func c09Produce(c *Ctx) {
 		}
 		v1in := mk(b.payload, "valid-v1", false, true)
 		v2in := mk(v2file, "valid-v2", true, true)
+		v2in.hasIndex = idxOff > 0
 		v1in.dpad = 0
 
 		// pristine archives: default row and the limit-derived rows
@@ -592,8 +598,9 @@ func c09Produce(c *Ctx) {
 		c09Plan(r, &plan, mk(w, "overlap-sections-in-v2", true, false), rowFor(), c09CarEntries)
 		// the quadratic case of the same shape (one per run: 64 KiB cost the walkers ~0.5 GiB)
 		if a == 0 {
-			amp := mk(c09AmplifyPayload(&b, 64<<10), "overlap-amplification", false, false)
+			amp := mk(c09AmplifyPayload(b.payload[:b.lay.hdrEnd], 64<<10), "overlap-amplification", false, false)
 			amp.dpad = 0
+			amp.implOnly = true
 			c09Plan(r, &plan, amp, c09DefaultRow, []int{c09EBr, c09ERoot, c09EBrSkip, c09EReader, c09ELoadIndex, c09ERobs,
 				c09EStorage, c09EInspect, c09EResumeHuge})
 		}
@@ -729,6 +736,10 @@ func c09Corpus(c *Ctx) {
 	hl, _ := binary.Uvarint(shaFile)
 	add("witness:storage-get-over-limit", c09Job{Entry: c09EStorage, MaxH: hl, MaxS: uint64(sha.Cid.ByteLen()+len(shaData)) - 1, In: shaFile,
 		Keys: [][]byte{sha.Cid.Bytes()}}, c09Expect{"over", "sec2big"})
+	// known finding: sections shorter than their CID, 64 KiB (implementation level: the extracted model would
+	// need minutes for 7000 overlapping CIDs)
+	add("known:section-shorter-than-its-cid", c09Job{Entry: c09ERobs, MaxH: def.maxH, MaxS: def.maxS, ImplOnly: true,
+		In: c09AmplifyPayload(hdrOnly, 64<<10), Keys: [][]byte{idAB.Bytes()}}, c09Expect{kind: "none"})
 	// known finding: a section limit above the runtime's maximum allocation (TotalMain.huge_limit_file)
 	noRoots := refPayload(nil, nil)
 	add("known:limit-above-runtime-max", c09Job{Entry: c09EBr, MaxH: 32 << 20, MaxS: 1 << 62, Trusted: true,
